@@ -343,7 +343,7 @@ def tecmp_good(rng):
             p = p[:rng.randrange(1, 5)]                 # shorter than the arbitration id and length byte
     elif r < 0.5:
         mt, dt = 3, 4
-        n = rng.choice([0, 1, 2, 8, rng.randrange(65)])
+        n = rng.choice([0, 1, 2, 8, rng.randrange(65), 253, 254, 255])       # also the longest lengths the field admits (round9c-2)
         have = n - rng.choice([1, n]) if bad and n > 0 else n
         p = [rng.randrange(256), n] + wire.rbytes(rng, max(0, have))
         if not bad and rng.random() < 0.7:
@@ -427,6 +427,15 @@ def anyhist(seed, nepisodes, prefix, tecmp=True):
                 ops.append({'op': 'decode', 'in': f})
             elif r < 0.85:
                 ops.append({'op': 'decode', 'in': mutate(rng, f)})
+            elif r < 0.868:
+                # a continuation segment on an endpoint that has nothing open, in a frame whose header looks like a
+                # value-initialised one (version 1, message type 0, counter 0 / 1), also with no payload (round9a-5)
+                q = wire.packet(rng, 'generic', rng.choice([0, 0, 1, 5]))
+                q['mt'] = 0
+                q['fl'] &= ~0x4C
+                body = wire.msg_header(q, rng.choice([2, 3]), len(q['pl'])) + q['pl']
+                ops.append({'op': 'decode', 'in': wire.frame_header(1, rng.choice([s.dev, rng.randrange(65536)]), 0,
+                                                                      rng.choice([s.st, rng.randrange(256)]), rng.choice([0, 1])) + body})
             elif r < 0.88:
                 ops.append({'op': 'decode', 'in': wire.rbytes(rng, rng.choice([0, 1, 7, 8, 9, 23, 24, 25, 40])), 'pendBefore': True})
             elif r < 0.885 and len(f) > 24 and (f[20] & 0x0C) in (0x08, 0x0C):
